@@ -32,7 +32,9 @@ Proof.
     destruct (un_eval (tfn r) o v); reflexivity.
   - rewrite <- IHa, <- IHb. destruct (evalT r a) as [[v t]|]; cbn; [|reflexivity].
     destruct (evalT r b) as [[w u]|]; cbn; [|reflexivity]. destruct (bin_eval o v w); reflexivity.
-  - rewrite <- IHc. destruct (evalT r c) as [[v t]|]; cbn; [|reflexivity]. destruct (truthy v); auto.
+  - rewrite <- IHc. destruct (evalT r c) as [[v t]|]; cbn; [|reflexivity].
+    destruct (truthy v); [rewrite <- IHa; destruct (evalT r a) as [[w u]|] | rewrite <- IHb; destruct (evalT r b) as [[w u]|]];
+      reflexivity.
   - rewrite <- IHlo, <- IHhi. destruct (evalT r lo) as [[l tl]|]; cbn; [|reflexivity].
     destruct (evalT r hi) as [[h th]|]; cbn; [|reflexivity].
     destruct (as_int l) as [lz|]; [|reflexivity]. destruct (as_int h) as [hz|]; [|reflexivity].
@@ -86,7 +88,7 @@ Proof. intros []; cbn; congruence. Qed.
 Lemma is_float_true : forall t, is_float t = true -> t = TFloat.
 Proof. intros []; cbn; congruence. Qed.
 
-Lemma evalT_poss : forall e r s sv v t, env_in r s sv -> evalT r e = Ok (v, t) -> In t (poss s sv e).
+Lemma evalT_poss : forall e r s sv v t, env_in r s sv -> evalT r e = Ok (v, t) -> In t (poss (tex r) s sv e).
 Proof.
   induction e as [q| |x|o a IHa|o a IHa b IHb|c IHc a IHa b IHb|i lo IHlo hi IHhi body IHbody|x i IHi|a IHa z i IHi];
     intros r s sv v t He H; cbn in H |- *.
@@ -100,14 +102,14 @@ Proof.
     destruct (evalT r b) as [[vb tb]|] eqn:Eb; cbn in H; [|discriminate].
     destruct (bin_eval o va vb); cbn in H; [|discriminate]. inversion H; subst.
     pose proof (IHa _ _ _ _ _ He Ea) as Ia. pose proof (IHb _ _ _ _ _ He Eb) as Ib.
-    assert (J : In (tjoin ta tb) (poss s sv a ++ poss s sv b))
+    assert (J : In (tjoin ta tb) (poss (tex r) s sv a ++ poss (tex r) s sv b))
       by (destruct (tjoin_cases ta tb) as [-> | ->]; apply in_or_app; auto).
     destruct o; cbn [bin_ty fst snd]; try exact J; try (left; reflexivity).
     + destruct (is_int ta && is_int tb) eqn:D.
       * apply andb_prop in D as [D1 D2]. apply in_or_app. left.
-        replace (existsb is_int (poss s sv a)) with true
+        replace (existsb is_int (poss (tex r) s sv a)) with true
           by (symmetry; apply existsb_exists; exists ta; auto).
-        replace (existsb is_int (poss s sv b)) with true
+        replace (existsb is_int (poss (tex r) s sv b)) with true
           by (symmetry; apply existsb_exists; exists tb; auto).
         left; reflexivity.
       * apply in_or_app. right. exact J.
@@ -118,11 +120,13 @@ Proof.
       * apply orb_prop in Fl as [Fl | Fl]; apply is_float_true in Fl; subst; apply in_or_app; auto.
       * destruct (Qle_bool va vb); apply in_or_app; auto.
   - destruct (evalT r c) as [[vc tc]|] eqn:Ec; cbn in H; [|discriminate].
-    destruct (truthy vc); apply in_or_app; [left; eapply IHa | right; eapply IHb]; eauto.
+    destruct (truthy vc); [destruct (evalT r a) as [[w u]|] | destruct (evalT r b) as [[w u]|]]; cbn in H;
+      try discriminate; inversion H; subst; left; reflexivity.
   - destruct (evalT r lo) as [[l tl]|]; cbn in H; [|discriminate].
     destruct (evalT r hi) as [[h th]|]; cbn in H; [|discriminate].
     destruct (as_int l) as [lz|]; [|discriminate]. destruct (as_int h) as [hz|]; [|discriminate].
     eapply sumT_poss; [|exact H]. intros k v' t' Hk. cbn in Hk.
+    change (tex r) with (tex (set_tsc r i (inject_Z k, TInt))).
     eapply IHbody; [|exact Hk]. apply env_in_set. exact He.
   - destruct (tvc r x) as [[l tl]|] eqn:E; [|discriminate]. cbn in H.
     destruct (evalT r i) as [[iv ti]|]; cbn in H; [|discriminate].
@@ -135,11 +139,11 @@ Proof.
 Qed.
 
 (* exact mode: under the guard the result is the exact rational value of the formula, of an exact type *)
-Lemma exact_mode_guarded : forall e r s sv v t, env_in r s sv -> exact_guard s sv e = true ->
+Lemma exact_mode_guarded : forall e r s sv v t, tex r = true -> env_in r s sv -> exact_guard s sv e = true ->
   evalT r e = Ok (v, t) -> t <> TFloat /\ eval (erase r) e = Ok v.
 Proof.
-  intros e r s sv v t He G H. split; [|eapply evalT_value; eauto].
-  pose proof (evalT_poss e r s sv v t He H) as I. unfold exact_guard in G. rewrite forallb_forall in G.
+  intros e r s sv v t Hx He G H. split; [|eapply evalT_value; eauto].
+  pose proof (evalT_poss e r s sv v t He H) as I. rewrite Hx in I. unfold exact_guard in G. rewrite forallb_forall in G.
   specialize (G t I). intros ->. discriminate.
 Qed.
 
@@ -148,7 +152,7 @@ Definition exact_inputs_env (r : tenv) : Prop :=
   (forall x v t, tsc r x = Some (v, t) -> t <> TFloat) /\ (forall x l t, tvc r x = Some (l, t) -> t <> TFloat).
 
 Definition idiv_e : expr := Bin BDiv (Var 0%N) (Var 1%N).                               (* a / b *)
-Definition idiv_r : tenv := mk_tenv [(0%N, (1, TInt)); (1%N, (3 # 1, TInt))] [] [].   (* a = 1, b = 3 (ints) *)
+Definition idiv_r : tenv := mk_tenv true [(0%N, (1, TInt)); (1%N, (3 # 1, TInt))] [] [].   (* a = 1, b = 3 (ints) *)
 Definition idiv_s : N -> list ty := fun _ => [TInt].
 
 Lemma exact_int_div_witness :
@@ -169,7 +173,7 @@ Proof. reflexivity. Qed.
    the result is a TimeType *)
 Definition exact_e : expr :=
   Bin BAdd (Bin BMul (Const (1 # 3)) (Var 0%N)) (Sum 10%N (Const 0) (Var 6%N) (Bin BMul (Var 10%N) (Var 1%N))).
-Definition exact_r : tenv := mk_tenv [(0%N, (2 # 1, TInt)); (1%N, (1 # 2, TTime)); (6%N, (2 # 1, TInt))] [] [].
+Definition exact_r : tenv := mk_tenv true [(0%N, (2 # 1, TInt)); (1%N, (1 # 2, TTime)); (6%N, (2 # 1, TInt))] [] [].
 Definition exact_s : N -> list ty := fun x => if N.eqb x 1 then [TTime] else [TInt].
 Lemma exact_guard_nonvacuous :
   exact_guard exact_s exact_s exact_e = true /\ env_in exact_r exact_s exact_s /\
@@ -184,3 +188,39 @@ Proof.
     + intros x l t. cbn. discriminate.
   - eexists. split; [vm_compute; reflexivity | reflexivity].
 Qed.
+
+(* ---- round 3 ----------------------------------------------------------------------------------------------------- *)
+(* a Piecewise is numpy.select with a float default: whatever the branches are, the result is a float *)
+Lemma evalT_ite_float : forall r c a b v t, evalT r (Ite c a b) = Ok (v, t) -> t = TFloat.
+Proof.
+  intros r c a b v t H. cbn in H. destruct (evalT r c) as [[vc tc]|]; cbn in H; [|discriminate].
+  destruct (truthy vc); [destruct (evalT r a) as [[w u]|] | destruct (evalT r b) as [[w u]|]]; cbn in H;
+    try discriminate; inversion H; reflexivity.
+Qed.
+
+(* the mode only matters for the type of non-integer Rational constants: the VALUE is the same in both modes *)
+Definition with_mode (ex : bool) (r : tenv) : tenv := {| tsc := tsc r; tvc := tvc r; tfn := tfn r; tex := ex |}.
+Lemma evalT_mode_value : forall e r ex, rfst (evalT (with_mode ex r) e) = rfst (evalT r e).
+Proof. intros. rewrite !evalT_erase. reflexivity. Qed.
+
+(* the convention of the correspondence: a decimal float literal q is bound to a reserved variable x of type float.
+   Evaluating the formula with the literal in place (x := q substituted) has the same value (or both have none) *)
+Lemma literal_as_input : forall e r x q t,
+  rsim (eval (erase r) (subst (consts [(x, q)]) e)) (rfst (evalT (set_tsc r x (q, t)) e)).
+Proof.
+  intros e r x q t. rewrite evalT_erase.
+  replace (eval (erase (set_tsc r x (q, t))) e) with (eval (over [(x, q)] (erase r)) e).
+  - apply partial_sim.
+  - apply eval_agree; try reflexivity. intros y _. cbn. destruct (N.eqb y x); reflexivity.
+Qed.
+
+(* the two modes on a/2 + floor(b), a = 3 (int), b = -2.5 (float): the exact printer gives the TimeType -3/2, the numpy
+   printer the float -1.5; floor of a float is an int in both *)
+Definition num_e : expr := Bin BAdd (Bin BMul (Const (1 # 2)) (Var 0%N)) (Un UFloor (Var 1%N)).      (* a/2 + floor(b) *)
+Definition num_r (ex : bool) : tenv := mk_tenv ex [(0%N, (3 # 1, TInt)); (1%N, ((-5) # 2, TFloat))] [] [].
+Lemma mode_example :
+  (exists v, evalT (num_r true) num_e = Ok (v, TTime) /\ v == (-3) # 2) /\
+  (exists v, evalT (num_r false) num_e = Ok (v, TFloat) /\ v == (-3) # 2) /\
+  (exists v, evalT (num_r true) (Bin BMul (Const (1 # 2)) (Var 0%N)) = Ok (v, TTime) /\ v == 3 # 2) /\
+  (exists v, evalT (num_r false) (Bin BMul (Const (1 # 2)) (Var 0%N)) = Ok (v, TFloat) /\ v == 3 # 2).
+Proof. repeat split; eexists; (split; [vm_compute; reflexivity | reflexivity]). Qed.
